@@ -13,5 +13,8 @@ func EncodeToString(hexBytes []byte) string {
 
 // DecodeFromString converts a hex string with 0X prefix to a byte slice
 func DecodeFromString(hexString string) ([]byte, error) {
+	if len(hexString) < 2 {
+		return nil, fmt.Errorf("hex string %q is shorter than its 0X prefix", hexString)
+	}
 	return hex.DecodeString(hexString[2:])
 }
